@@ -49,7 +49,7 @@ def apply(project, w):
     mod = project.by_relpath.get(w.relpath)
     if mod is None:
         raise AnalysisError("witness %s: file %s missing" % (w.id, w.relpath))
-    tree = copy.deepcopy(mod.tree)
+    tree = copy.deepcopy(mod.raw_tree)
     if w.target:
         node, parent_body = _find(tree, w.target.split("."))
         if node is None:
